@@ -13,7 +13,7 @@ SPEC = dict(
                "reads exit status, stderr and ru_maxrss. (3) For generated databases, answers of child processes with no files, with "
                "provably inert files and with active files are compared query by query (one query in seven carries text whose case mappings change its "
                "encoded length). Histories also reload the embedding files on the same database after cmd_embeddings.bin was replaced (complete, or cut short "
-               "by a few bytes); a database of 4096-7001 entries with a row for every entry is searched under processor counts 1-256. Exploration with per-class coverage floors, not proof.",
+               "by a few bytes); a database of 4096-7001 entries with a row for every entry is searched under processor counts 1-256. Exploration with per-class coverage floors, not proof. With an active index every answer of a request repeated on one object (three to eight times) must be explained by an answer given without the files, not just one of them.",
     level_note="Trusted: the harness generators and its own cosine (used only to classify generated files as inert), Linux ru_maxrss / "
                "RLIMIT_AS accounting, the Go runtime's fatal-error text. LoadEmbeddings is reached exactly as the CLI reaches it "
                "(files resolved relative to the cwd); nothing in /repo is hooked.",
